@@ -64,7 +64,7 @@ func vhRender(dump []byte, out io.Writer) {
 // VH_C02_Process: streams text / dump / text / dump / text through process().
 //
 //verif:prop C02
-//verif:param shape 0..4
+//verif:param shape 0..6
 func VH_C02_Process(shape int) {
 	var in, want []byte
 	exp := &vhBuf{}
@@ -95,8 +95,20 @@ func VH_C02_Process(shape int) {
 		text("t1")
 		dump("d1", 2)
 		text("t2")
-	default:
+	case 4:
 		dump("d0", 1)
+	case 5:
+		// the input ends with a text line that has no newline
+		text("t0")
+		dump("d0", 1)
+		t := vhTextLine("t1")
+		in = append(in, t[:3]...)
+		exp.b = append(exp.b, t[:3]...)
+	default:
+		dump("d0", 2)
+		t := vhTextLine("t1")
+		in = append(in, t[:2]...)
+		exp.b = append(exp.b, t[:2]...)
 	}
 	want = exp.b
 	out := &vhBuf{}
